@@ -120,6 +120,28 @@ def alpha(fact: str, locals_: set[str]) -> str:
     return _IDENT.sub(rep, fact)
 
 
+_KW = {"None", "True", "False", "not", "in", "is", "and", "or", "if", "else", "lambda", "for", "raw", "re"}
+
+
+def fn_names(v: "FnView") -> set[str]:
+    c = getattr(v, "_names_cache", None)
+    if c is None:
+        c = {n.id for n in ast.walk(v.fn.node) if isinstance(n, ast.Name)} | {a.arg for a in ast.walk(v.fn.node) if isinstance(a, ast.arg)}
+        v._names_cache = c  # type: ignore[attr-defined]
+    return c
+
+
+def vanished(v: "FnView", fact: str) -> set[str]:
+    """Identifiers a table fact mentions that the function no longer contains: a renamed or
+    removed local.  Such a fact is compared modulo renaming, and when it still does not hold the
+    entry is unrecognised rather than violated."""
+    if fact.startswith(("re:", "exhausted(")):
+        return set()
+    body = fact[4:] if fact.startswith("raw:") else fact
+    body = re.sub(r"'[^']*'|\"[^\"]*\"", "''", body)
+    return {m.group(1) for m in _IDENT.finditer(body) if m.group(1) not in _KW} - fn_names(v)
+
+
 def has_fact(facts: Iterable[str], pattern: str) -> bool:
     rx = re.compile(pattern)
     return any(rx.fullmatch(f) for f in facts)
@@ -179,7 +201,8 @@ def _establishing(v: FnView, fact: str) -> list:
                 if (fact.startswith("re:") and re.fullmatch(fact[3:], f)) or f == fact:
                     out.append(n)
         return out
-    want = alpha(fact[4:], v.locals) if fact.startswith("raw:") else None
+    gone = vanished(v, fact)
+    want = alpha(fact[4:], v.locals | gone) if fact.startswith("raw:") else (alpha(fact, v.locals | gone) if gone else None)
     for n, fs, afs in _node_facts(v):
         if fact.startswith("re:"):
             if has_fact(fs, fact[3:]):
@@ -228,10 +251,12 @@ def need_holds(v: FnView, node: ast.AST, alts: list[str], raw: bool = False, non
             if has_fact(local, fs[0][3:]):
                 return True
         elif fs[0].startswith("raw:"):
-            want = alpha(fs[0][4:], v.locals)
+            want = alpha(fs[0][4:], v.locals | vanished(v, fs[0]))
             if any(alpha(f, v.locals) == want for f in local):
                 return True
         elif fs[0] in local:
+            return True
+        elif (gone := vanished(v, fs[0])) and any(alpha(f, v.locals) == alpha(fs[0], v.locals | gone) for f in local):
             return True
         through += _establishing(v, fs[0])
     tn = v.cfg.node_for(node)
@@ -251,6 +276,13 @@ def require(report: Report, rule: str, v: FnView, node: ast.AST, needs: list, wh
             missing.append(" | ".join(alts))
     construct = " ".join(src(node).split())[:120]
     if missing:
+        gone = set()
+        for p in needs:
+            for a in ([p] if isinstance(p, str) else list(p)):
+                for f in ([a] if a.startswith(("raw:", "re:", "exhausted(")) else need_facts(a)):
+                    gone |= vanished(v, f)
+        if gone:
+            raise AnalysisError(f"{rule}: {v.fn.key}: the guard of `{construct[:60]}` cannot be compared: the reviewed condition mentions {sorted(gone)}, which found 0 time(s) in the function now (renamed or restructured)")
         report.violate(
             rule,
             v.fn,
